@@ -29,8 +29,8 @@ func init() {
 	engine.Register(&engine.Check{
 		ID:    "C01",
 		Title: "Programs evaluate to the result ECMAScript 5 prescribes",
-		Rule: "every program of seven generator families (A control skeletons, B binding histories, C calls/arguments/constructors, " +
-			"D evaluation order, E conditionally evaluated statement-head expressions, L label-name reuse across functions/eval/siblings, F for-in over multi-key objects with side-effecting targets) is enumerated completely within its bound (choice vectors of engine.Explore / full products); each " +
+		Rule: "every program of eight generator families (A control skeletons, B binding histories, C calls/arguments/constructors, " +
+			"D evaluation order, E conditionally evaluated statement-head expressions, L label-name reuse across functions/eval/siblings, F for-in over multi-key objects with side-effecting targets, R scope mutation between resolution and use of an identifier Reference) is enumerated completely within its bound (choice vectors of engine.Explore / full products); each " +
 			"program text is distinct; it is run on otto through Run(string), Compile+Run, ParseFile+Run(*ast.Program), Eval, and a " +
 			"Script compiled on runtime A run on fresh runtimes B and C, and compared with ref/js (global code; eval code for the Eval " +
 			"route): host-call sequence with canonical arguments, completion value, uncaught-exception class. A case is non-trivial " +
@@ -46,6 +46,7 @@ func init() {
 			{Name: "E", Run: runE},
 			{Name: "L", Run: runL},
 			{Name: "F", Run: runF},
+			{Name: "R", Run: runR},
 			{Name: "witness", Run: runWitness, Solo: true},
 		},
 		Assumptions: []string{
